@@ -63,9 +63,16 @@ func model(c TaskCase) expect {
 			return e
 		}
 	}
-	if c.Before != "" {
+	if c.Before == "ok,ok" || c.Before == "ok,fail" {
+		e.Tokens = append(e.Tokens, "B", "B2")
+		if c.Before == "ok,fail" {
+			e.Err = true
+			e.ExitCode = -2
+			return e
+		}
+	} else if c.Before != "" {
 		e.Tokens = append(e.Tokens, "B")
-		if c.Before == "fail" {
+		if c.Before == "fail" || c.Before == "fail,ok" {
 			e.Err = true
 			// a failing before prevents all commands; the property does not say which result
 			// fields are set, only that the run reports an error
@@ -91,6 +98,10 @@ func model(c TaskCase) expect {
 	}
 	if c.After != "" {
 		e.Tokens = append(e.Tokens, "A")
+		if c.After == "ok,ok" || c.After == "fail,ok" {
+			// every after command runs once; a failing after command only warns
+			e.Tokens = append(e.Tokens, "A2")
+		}
 	}
 	return e
 }
@@ -114,12 +125,22 @@ func buildTask(c TaskCase) *task.Task {
 		t.Before = []string{"echo B"}
 	case "fail":
 		t.Before = []string{"echo B; exit 3"}
+	case "ok,ok":
+		t.Before = []string{"echo B", "echo B2"}
+	case "ok,fail":
+		t.Before = []string{"echo B", "echo B2; exit 3"}
+	case "fail,ok":
+		t.Before = []string{"echo B; exit 3", "echo B2"}
 	}
 	switch c.After {
 	case "ok":
 		t.After = []string{"echo A"}
 	case "fail":
 		t.After = []string{"echo A; exit 4"}
+	case "ok,ok":
+		t.After = []string{"echo A", "echo A2"}
+	case "fail,ok":
+		t.After = []string{"echo A; exit 4", "echo A2"}
 	}
 	switch c.Cond {
 	case "true":
@@ -351,6 +372,20 @@ func main() {
 		grammar(3, 3, []int{0, 1, 2, 255}, -1)
 	case "grammar4": // thorough: k<=4, v<=4, at most two failing commands over {1,2,127,255}
 		grammar(4, 4, []int{0, 1, 2, 127, 255}, 2)
+	case "hooks2": // two-command before / after hooks
+		for _, st := range [][]int{{0}, {0, 1}, {2, 0}} {
+			for _, allow := range []bool{false, true} {
+				for _, b := range []string{"", "ok,ok", "ok,fail", "fail,ok"} {
+					for _, a := range []string{"", "ok,ok", "fail,ok"} {
+						for _, v := range []int{0, 2} {
+							if do(TaskCase{Status: st, Variations: v, Allow: allow, Before: b, After: a}) {
+								goto done
+							}
+						}
+					}
+				}
+			}
+		}
 	case "sweep": // every status 1..255 at every single position of k<=3 commands, allow on/off, direct and as a pipeline stage
 		for k := 1; k <= 3; k++ {
 			for p := 0; p < k; p++ {
@@ -744,6 +779,9 @@ pipelines:
 	if c.Via == "run" {
 		args = append(args, "run")
 	}
+	if c.Via == "run-task" {
+		args = append(args, "run", "task")
+	}
 	args = append(args, c.Targets...)
 	cmd := exec.Command(os.Getenv("VERIF_TASKCTL"), args...)
 	cmd.Dir = dir
@@ -816,7 +854,17 @@ func cliUnit(res *common.Result, maxLen int, statuses []int) {
 			return false
 		}
 		if len(cur) > 0 {
-			for _, via := range []string{"", "run"} {
+			vias := []string{"", "run"}
+			onlyTasks := true
+			for _, t := range cur {
+				if t == "pok" || t == "pfail" {
+					onlyTasks = false
+				}
+			}
+			if onlyTasks {
+				vias = append(vias, "run-task") // `taskctl run task T...` accepts tasks only
+			}
+			for _, via := range vias {
 				for _, s := range statuses {
 					hasFail := false
 					for _, t := range cur {
